@@ -10,6 +10,7 @@ from mirsym.interp import Panic, Inconclusive
 from mirsym.values import *
 from mirsym.models.util import items, deref, conj, val_eq, variant, payload
 from native import oracle
+from checks import hobl
 
 
 def sym_bytes(ip, n, hint, nonzero=True):
@@ -552,6 +553,9 @@ def main(chk):
         tasks.append((o3_replies, (prog, q, codes)))
     chk.parallel(_dispatch, tasks)
 
+    # whole sessions with statement caching on (Client::handle executed): every Execute runs the text the client prepared under that name,
+    # a valid program never sees 'prepared statement does not exist'
+    hobl.handle_obligations(chk, chk.program('on'), {'C08'}, ['cache', 'named'])
 
 if __name__ == '__main__':
     run_check('C08', main)
